@@ -51,6 +51,23 @@ CHECKS = {
                  "delimiter strings), not proved."),
         "design_ref": "DESIGN.md section 7 C07",
     },
+    "C09": {
+        "text": ("Proved: pickling keeps exactly the five stored strings; the restored object is == with the same key; all 36 observed "
+                 "accessors agree whenever the eagerly stored authority parts are what a lazy split derives; encode_url stores its "
+                 "authority as make_netloc of exactly the eager parts; split_netloc inverts make_netloc for every delimiter-free "
+                 "user/password, bracket-free or bracketed host and port 0..65535 (complete sweep). PARTIAL: that encode_url's parts "
+                 "always meet those side conditions is validated by correspondence (eager object vs unpickled twin, all accessors), not "
+                 "proved; F7 (empty host) is a refuted witness, F17 a known finding."),
+        "design_ref": "DESIGN.md section 7 C09",
+    },
+    "C11": {
+        "text": ("Proved for every URL value, modifier and argument: the stored scheme/path/query/fragment strings change only as the "
+                 "modifier documents (frame_spec), non-authority modifiers keep the authority text, authority modifiers re-assemble it "
+                 "from the current parts and the result reads those parts back (split_netloc inverts make_netloc) incl. IPv6 brackets, "
+                 "explicit port, empty-vs-absent password; quoted user/password never contain a raw delimiter. The accessor-level frame "
+                 "predicate is applied to the implementation on the 10752-base matrix x 47 modifier calls. Known findings F7, F17 excluded."),
+        "design_ref": "DESIGN.md section 7 C11",
+    },
     "C10": {
         "text": ("Proved on the model: == is the equality of the normalised 5-tuple (an equivalence), the ordering is a total preorder with "
                  "trichotomy, <= is < or ==. 'Never equal to a non-URL' is type-dispatch glue probed on the implementation only."),
